@@ -142,7 +142,7 @@ Texts == {Con("text", <<"txt:" \o k>>, <<[Tk("Text", "text", 1, 1) EXCEPT !.tlo 
             : k \in {"plain", "amp", "gt", "ws", "uni"}}
 Comments == {Con("comment", <<"lit:<!--", "cmt:" \o k, "lit:-->">>,
                  <<[Tk("Comment", "comment." \o k, 1, 3) EXCEPT !.tlo = 2, !.thi = 2, !.tm = "exact"]>>)
-               : k \in {"empty", "plain", "tag", "dash", "dashdash", "dashgt", "bang"}}
+               : k \in {"empty", "plain", "tag", "dash", "dashdash", "dashgt", "bang", "enddash"}}     \* enddash: the data ends with '-' ("--->": comment end state, '-' is data)
 Doctypes == {Con("doctype", <<"lit:<!", "dt:" \o cs, "ws", "dtbody:" \o k, "lit:>">>,
                  <<[Tk("Doctype", "doctype", 1, 5) EXCEPT !.fold = 2, !.tlo = 3, !.thi = 4, !.tm = "ltrim"]>>)
                : cs \in Cases, k \in {"html", "public", "system"}}
@@ -277,7 +277,7 @@ Required ==
                     \cup {"r:" \o k : k \in {"la.x", "la.sp", "la.other", "la.len.u", "la.len.m", "la.digit", "la.bs"}}
                     \cup {"x:" \o k : k \in {"nested", "dq.closer", "sq.closer", "la.x", "la.sp"}}
                     \cup {"txt:" \o k : k \in {"plain", "amp", "gt", "ws", "uni"}}
-                    \cup {"cmt:" \o k : k \in {"empty", "plain", "tag", "dash", "dashdash", "dashgt", "bang"}}
+                    \cup {"cmt:" \o k : k \in {"empty", "plain", "tag", "dash", "dashdash", "dashgt", "bang", "enddash"}}     \* enddash: the data ends with '-' ("--->": comment end state, '-' is data)
                     \cup {"cd:" \o k : k \in {"plain", "markup", "brackets", "bracketgt", "empty"}}
                     \cup {"dtbody:" \o k : k \in {"html", "public", "system"}},
           labels |-> {"text", "doctype", "stag.open", "stag.close", "etag", "etag.ff", "svg", "math", "attr.none"}
